@@ -12,7 +12,7 @@ ASSUMPTIONS = ["idealised MAC for 'old-key packets are rejected' (verdicts are c
 
 
 def scenario(rng, k, tier):
-    wildcard = rng.random() < 0.4
+    wildcard = rng.random() < 0.4 and k % 4 != 1
     ssrc = rng.randrange(2, 1 << 32)
     other = ssrc ^ 0x55
     use_mki = rng.random() < 0.3
